@@ -85,6 +85,8 @@ def _glm_fit(X, y, model, datafit, penalty, solver):
         if isinstance(datafit, QuadraticSVC):
             model.dual_coef_ = np.array(
                 [clf.dual_coef_[0] for clf in multiclass.estimators_])
+        model.intercept_ = np.array(
+            [np.ravel(clf.intercept_)[0] for clf in multiclass.estimators_])
         model.n_iter_ = max(
             clf.n_iter_ for clf in multiclass.estimators_)
         return model
